@@ -29,8 +29,8 @@ pub struct GravsoftSpec {
 impl GravsoftSpec {
     pub fn generate(rng: &mut Rng) -> GravsoftSpec {
         let projected = rng.chance(0.25);
-        let rows = 2 + rng.below(6);
-        let cols = 2 + rng.below(7);
+        // mostly small; now and then large enough to cross any internal block size
+        let (rows, cols) = if rng.chance(0.02) { (2 + rng.below(150), 2 + rng.below(150)) } else { (2 + rng.below(6), 2 + rng.below(7)) };
         let bands = 1 + rng.below(3);
         // steps and bounds exactly representable (multiples of 1/8)
         let (dlat, dlon, lat_s, lon_w) = if projected {
@@ -347,11 +347,10 @@ impl Ntv2Spec {
         let mut subgrids = Vec::new();
         let bases = 1 + rng.below(3);
         for b in 0..bases {
-            let rows = 4 + rng.below(5);
-            let cols = 4 + rng.below(5);
+            let (rows, cols) = if rng.chance(0.02) { (4 + rng.below(90), 4 + rng.below(90)) } else { (4 + rng.below(5), 4 + rng.below(5)) };
             // one degree cells, or dense grids (large coordinate/step ratios); always a
             // multiple of 4 seconds so that children at inc/2 and inc/4 stay exact
-            let inc = *rng.pick(&[3600.0, 3600.0, 1800.0, 300.0, 60.0, 120.0, 40.0]);
+            let inc = if rows > 9 || cols > 9 { *rng.pick(&[300.0, 60.0, 120.0, 40.0]) } else { *rng.pick(&[3600.0, 3600.0, 1800.0, 300.0, 60.0, 120.0, 40.0]) };
             // bases side by side, separated by a gap, so that they never overlap
             let s_lat = 3600.0 * rng.range(-60, 50) as f64 + inc * rng.range(0, 7) as f64;
             // (at most 8 columns of at most one degree within a 50 degree slot)
